@@ -123,12 +123,26 @@ where
         replay::universal(&mut sink.ctx, inst, p, &obs, &[&known], "parse");
     }
     sink.emit(json!({"ev": "parse", "sh": sh, "inst": inst, "s": cps(s), "out": for_tlc(&obs), "text": text, "lc": lc_table(&[s])}));
+    let _ = &p;
 }
 
 fn parse_all(sink: &mut Sink, s: &str) {
     parse_event::<String>(sink, "generic", "String", s);
     #[cfg(feature = "pt")]
     parse_event::<purl::PackageType>(sink, "typed", "Purl", s);
+    // C18: combined_name() of a parsed typed PURL, and the constructor applied to it
+    #[cfg(feature = "pt")]
+    if let Ok(p) = <purl::Purl as FromStr>::from_str(s) {
+        let r = catch_unwind(AssertUnwindSafe(|| {
+            let j = p.combined_name().into_owned();
+            let b2 = purl::Purl::builder_with_combined_name(*p.package_type(), &j);
+            (j, json!({"ns": cps(&b2.parts.namespace), "name": cps(&b2.parts.name)}))
+        }));
+        match r {
+            Ok((j, inv)) => sink.emit(json!({"ev": "combinv", "v": value_json(&p), "joined": cps(&j), "inverse": inv})),
+            Err(_) => sink.emit(json!({"ev": "combinv", "v": value_json(&p), "panic": true})),
+        }
+    }
     // C13: the small-string type parameter parses exactly like the owned string
     #[cfg(feature = "ss")]
     {
@@ -381,7 +395,14 @@ fn random_qop(rng: &mut Rng) -> Value {
             let ks: Vec<&str> = QKEYS.iter().copied().filter(|k| k.is_ascii()).collect();
             json!(["retain_key_ne", cps(ps(rng, &ks))])
         },
-        23 => json!(["retain_mut_set", v]),
+        23 => {
+            if rng.chance(1, 2) {
+                json!(["retain_mut_set", v])
+            } else {
+                let ks: Vec<&str> = QKEYS.iter().copied().filter(|k| k.is_ascii()).collect();
+                json!(["count_keys_lt", cps(ps(rng, &ks))])
+            }
+        },
         24 => json!(["iter_mut_set", v]),
         25 => json!(["insert_typed_repo", v]),
         26 => json!(["remove_typed_repo"]),
@@ -509,7 +530,14 @@ fn random_bop(rng: &mut Rng) -> Value {
         7..=9 => json!(["with_qualifier", cps(ps(rng, QKEYS)), cps(ps(rng, QVALS))]),
         10 => json!(["with_qualifier", cps(ps(rng, QKEYS)), s]),
         11 => json!(["without_qualifier", cps(ps(rng, QKEYS))]),
-        12 => json!(["with_typed_repo", s]),
+        12 => {
+            match rng.below(4) {
+                0 => json!(["edit_name", s]),
+                1 => json!(["edit_ns", s]),
+                2 => json!(["edit_qual", cps(ps(rng, QKEYS)), cps(ps(rng, QVALS))]),
+                _ => json!(["with_typed_repo", s]),
+            }
+        },
         13 => json!(["without_typed_repo"]),
         14 => {
             let n = rng.below(3);
